@@ -675,6 +675,8 @@ pub enum PairOp {
     Read { at: bool, cap: u16 },
     Flush { at: bool },
     Shutdown { at: bool },
+    /// one vectored write; slices may be empty, also the first one
+    WriteV { from: bool, lens: Vec<u16> },
 }
 
 #[derive(Clone, Debug, Serialize, Deserialize, PartialEq)]
@@ -797,6 +799,47 @@ impl PairEngine {
                             None => {
                                 partial = true;
                             }
+                        }
+                    }
+                    PairOp::WriteV { from, lens } => {
+                        let dir = *from as usize;
+                        if shut[dir] {
+                            continue;
+                        }
+                        let mut start = sent[dir].len();
+                        let bufs: Vec<Vec<u8>> = lens
+                            .iter()
+                            .map(|l| {
+                                let v: Vec<u8> = (start..start + *l as usize).map(|i| wbyte(i + dir * 17)).collect();
+                                start += *l as usize;
+                                v
+                            })
+                            .collect();
+                        let flat: Vec<u8> = bufs.concat();
+                        let slices: Vec<io::IoSlice<'_>> = bufs.iter().map(|b| io::IoSlice::new(b)).collect();
+                        let w = if dir == 0 { &mut a } else { &mut b };
+                        rep.class("vectored-write");
+                        if lens.first() == Some(&0) && !flat.is_empty() {
+                            rep.class("vectored-write-with-empty-first-slice");
+                        }
+                        match futures_util::FutureExt::now_or_never(w.write_vectored(&slices)) {
+                            Some(Ok(n)) if n > flat.len() => rep.violate(format!("C18/{name}/write-reports-more-than-given"), format!("step {step}: vectored write")),
+                            Some(Ok(0)) if !flat.is_empty() => {
+                                // "no more bytes can be written": a closed stream invented
+                                rep.violate(format!("C18/{name}/vectored-write-accepts-nothing"), format!("step {step}: vectored write of slices {lens:?} returned Ok(0) on a healthy pair"));
+                                return Ok(());
+                            }
+                            Some(Ok(n)) => {
+                                if n < flat.len() {
+                                    partial = true;
+                                }
+                                sent[dir].extend_from_slice(&flat[..n]);
+                            }
+                            Some(Err(e)) => {
+                                rep.violate(format!("C18/{name}/write-failed-on-healthy-pair"), format!("step {step}: vectored write failed with {e}"));
+                                return Ok(());
+                            }
+                            None => partial = true,
                         }
                     }
                     PairOp::Read { at, cap } => {
@@ -945,6 +988,7 @@ pub fn pair_strategy(kinds: std::ops::Range<u8>) -> impl proptest::strategy::Str
         5 => (any::<bool>(), prop_oneof![Just(0u16), Just(1u16), 2u16..64, 64u16..3000]).prop_map(|(at, cap)| PairOp::Read { at, cap }),
         1 => any::<bool>().prop_map(|at| PairOp::Flush { at }),
         1 => any::<bool>().prop_map(|at| PairOp::Shutdown { at }),
+        2 => (any::<bool>(), proptest::collection::vec(prop_oneof![2 => Just(0u16), 2 => 1u16..64, 1 => 64u16..2000], 0..5)).prop_map(|(from, lens)| PairOp::WriteV { from, lens }),
     ];
     (kinds, prop_oneof![Just(1u16), 2u16..32, 32u16..4096], proptest::collection::vec(op, 1..40)).prop_map(|(kind, buf, ops)| PairCase { kind, buf, ops })
 }
@@ -1104,6 +1148,11 @@ impl Engine for TlsPairEngine {
                                     }
                                     Poll::Pending => return Poll::Pending,
                                 }
+                            }
+                            PairOp::WriteV { .. } => {
+                                // (the TLS pair leg does not generate vectored writes)
+                                idx += 1;
+                                continue;
                             }
                             PairOp::Shutdown { at } => {
                                 let dir = *at as usize;
